@@ -222,6 +222,10 @@ pub fn cmd_worker(args: &[String]) -> i32 {
                 last_snapshot = Instant::now();
             }
         }
+        if prop == "C08" {
+            // C08: a run that kills the worker process (stack overflow, abort) is named by this marker
+            let _ = std::fs::write(format!("{}.cur", out), seed.to_string());
+        }
         let r = runner::generate(&prop, seed);
         k += stride;
         if let Some(v) = &r.violation {
@@ -339,6 +343,19 @@ pub fn cmd_check(args: &[String]) -> i32 {
         let v: Value = match serde_json::from_str(&txt) {
             Ok(v) => v,
             Err(_) => {
+                // C08: the worker process itself died (signal) inside a run. That is what the property forbids
+                // ("never abort the calling thread"); the run is re-executed with a journal in a child process
+                // and reported with a replay file that kills a fresh process in the same way.
+                let cur = std::fs::read_to_string(format!("{}.cur", out)).ok().and_then(|t| t.trim().parse::<u64>().ok());
+                if let (true, None, Some(run_seed)) = (prop == "C08", st.code(), cur) {
+                    if violations.iter().any(|v: &Value| v["check"] == "process-death") {
+                        continue; // one report per batch is enough
+                    }
+                    if let Some(v) = process_death_report(&exe, &prop, seed, run_seed) {
+                        violations.push(v);
+                        continue;
+                    }
+                }
                 eprintln!("HARNESS-ERROR worker produced no result (exit {:?})", st.code());
                 harness_error = true;
                 continue;
@@ -530,6 +547,88 @@ pub fn assumptions() -> Vec<&'static str> {
 
 // ---------------------------------------------------------------- replay / one / detlog
 
+/// `meldasim journal <Cxx> <run-seed> <file>`: one generated run with the process-death journal switched on.
+pub fn cmd_journal(args: &[String]) -> i32 {
+    let f = std::fs::File::create(&args[2]).expect("journal file");
+    *runner::JOURNAL.lock().unwrap() = Some(f);
+    let _ = runner::generate(&args[0], args[1].parse().unwrap());
+    0
+}
+
+fn dies(exe: &std::path::Path, file: &str) -> bool {
+    let o = std::process::Command::new(exe).args(["replay", file, "--mode", "inner"]).output().expect("replay");
+    o.status.code().is_none()
+}
+
+fn process_death_report(exe: &std::path::Path, prop: &str, base: u64, run_seed: u64) -> Option<Value> {
+    let _ = std::fs::create_dir_all(format!("{}/replays", verif_home()));
+    let jpath = format!("{}/replays/{}-{}-{}-death.journal", verif_home(), prop, crate::seam::FLAVOUR, run_seed);
+    let o = std::process::Command::new(exe).args(["journal", prop, &run_seed.to_string(), &jpath]).output().ok()?;
+    let txt = std::fs::read_to_string(&jpath).unwrap_or_default();
+    let _ = std::fs::remove_file(&jpath);
+    if o.status.code().is_some() {
+        return None; // the run alone does not kill a fresh process
+    }
+    let mut lines = txt.lines().filter_map(|l| serde_json::from_str::<Value>(l).ok());
+    let cfg = crate::world::RunCfg::from_json(&lines.next()?).ok()?;
+    let mut ops: Vec<Op> = lines.filter_map(|v| Op::from_json(&v).ok()).collect();
+    let err = String::from_utf8_lossy(&o.stderr).lines().filter(|l| l.contains("overflow") || l.contains("abort") || l.contains("fatal")).take(2).collect::<Vec<_>>().join(" / ");
+    let path = format!("{}/replays/{}-{}-{}-death.json", verif_home(), prop, crate::seam::FLAVOUR, base);
+    let write = |ops: &[Op]| {
+        let last = ops.last().map(|o| o.name()).unwrap_or("?");
+        let v = Violation { prop: prop.to_string(), check: "process-death".into(), class: format!("abort:process-died:{}", last), step: ops.len(),
+            detail: format!("the process executing this history is killed by a signal during or right after op #{} ({}): {}", ops.len(), last, if err.is_empty() { "no message" } else { &err }) };
+        let mut file = runner::replay_file_json(&cfg, ops, &v, &BTreeMap::new(), json!({"original_ops": ops.len(), "run_seed": run_seed}));
+        file["process_death"] = json!(true);
+        std::fs::write(&path, serde_json::to_string_pretty(&file).unwrap()).expect("cannot write replay file");
+        v
+    };
+    let original = ops.len();
+    write(&ops);
+    if !dies(exe, &path) {
+        // the fatal call was a read made by the generator while it chose the next op: read everywhere
+        for r in 0..cfg.n_replicas {
+            ops.push(Op::Read { r, what: 0 });
+        }
+        write(&ops);
+        if !dies(exe, &path) {
+            let _ = std::fs::remove_file(&path);
+            return None;
+        }
+    }
+    // minimise: drop chunks while a fresh process still dies
+    let (mut chunk, mut tried) = ((ops.len() / 2).max(1), 0);
+    loop {
+        let mut i = 0;
+        let mut progress = false;
+        while i < ops.len().saturating_sub(1) && tried < 120 {
+            let end = (i + chunk).min(ops.len() - 1);
+            let mut cand = ops.clone();
+            cand.drain(i..end);
+            write(&cand);
+            tried += 1;
+            if dies(exe, &path) {
+                ops = cand;
+                progress = true;
+            } else {
+                i = end;
+            }
+        }
+        if tried >= 120 || (chunk == 1 && !progress) {
+            break;
+        }
+        if chunk > 1 {
+            chunk /= 2;
+        }
+    }
+    let v = write(&ops);
+    let mut file: Value = serde_json::from_str(&std::fs::read_to_string(&path).ok()?).ok()?;
+    file["extra"]["original_ops"] = json!(original);
+    file["extra"]["shrink_candidates_tried"] = json!(tried);
+    std::fs::write(&path, serde_json::to_string_pretty(&file).unwrap()).ok()?;
+    Some(json!({"replay": path, "class": v.class, "detail": v.detail, "check": v.check, "run_seed": run_seed}))
+}
+
 pub fn cmd_replay(args: &[String]) -> i32 {
     let path = match args.first() {
         Some(p) => p,
@@ -546,6 +645,24 @@ pub fn cmd_replay(args: &[String]) -> i32 {
         eprintln!("note: replay file was recorded with build {} and is replayed with build {}", file["run_config"]["build"], crate::seam::FLAVOUR);
     }
     let mode = arg(args, "--mode").map(|s| s.to_string()).or_else(|| file["replay_mode"].as_str().map(|s| s.to_string())).unwrap_or_default();
+    if file["process_death"] == json!(true) && mode != "inner" {
+        // the recorded violation is the death of the process: replay in a child and look at how it ends
+        let exe = std::env::current_exe().expect("current_exe");
+        let o = std::process::Command::new(&exe).args(["replay", path, "--mode", "inner"]).output().expect("replay");
+        println!("replay {}: {} ops in a child process, which ended with {:?}", path, ops.len(), o.status);
+        if args.iter().any(|a| a == "-v") {
+            for (i, o) in ops.iter().enumerate() {
+                println!("  {:3} {}", i + 1, o.brief());
+            }
+        }
+        if o.status.code().is_none() {
+            println!("VIOLATION property={} replay={}", file["property"].as_str().unwrap_or("?"), path);
+            println!("class={} check=process-death step={}\n{}", file["violation"]["class"].as_str().unwrap_or("?"), ops.len(), file["violation"]["detail"].as_str().unwrap_or(""));
+            return 1;
+        }
+        println!("no violation");
+        return 0;
+    }
     let mut regenerated = None;
     if mode.starts_with("with-history") {
         let h = &file["extra"]["process_history"];
